@@ -6,7 +6,7 @@ seeds=("$@"); [ ${#seeds[@]} -eq 0 ] && seeds=($(ls seeded))
 for s in "${seeds[@]}"; do
   id=${s%%-*}; m=${s##*-}
   [ -f seeded/$s/patch.diff ] || continue
-  out=$(LINES_MAX=4 tools/try_mutation.sh /verif/seeded/$s/patch.diff $id 2>&1)
+  out=$(SKIP_REBUILD=1 LINES_MAX=4 tools/try_mutation.sh /verif/seeded/$s/patch.diff $id 2>&1)
   code=$(echo "$out" | grep -o "exit=[0-9]*" | head -1)
   sig=$(echo "$out" | grep "signature:" | head -1 | sed 's/^ *signature: //' | cut -c1-160)
   case=$(echo "$out" | grep "case:" | head -1 | sed 's/^ *case: //' | cut -c1-120)
@@ -18,3 +18,5 @@ for s in "${seeds[@]}"; do
     python3 tools/record_seed.py $id $m none "not reported by bin/check $id quick ($code)" >/dev/null
   fi
 done
+(cd /verif/harness && cargo build --release --offline >/dev/null 2>&1)
+echo "seed_matrix finished"
